@@ -33,7 +33,8 @@ def seam_pixels(pair, src, ref, mbm):
         inner = los & his            # where one block ends and the next begins
         near = np.array([(2 * (S[0] + j * S[1] - R[0]) + S[1]) // (2 * R[1]) for j in range(S[2])])
         out.append(np.array([any(i in (b - 1, b) for b in inner) for i in near], bool))
-    return out[0][:, None] | out[1][None, :], len(bps)
+    shape = (max(bp.ref_out_block.height for bp in bps), max(bp.ref_out_block.width for bp in bps))
+    return out[0][:, None] | out[1][None, :], len(bps), shape
 
 
 def whole_image_leg(run: common.Run, n, blocks=(0,), base=700_000, src_grid=True):
@@ -131,11 +132,38 @@ def whole_image_leg(run: common.Run, n, blocks=(0,), base=700_000, src_grid=True
             a = res.corr[0].astype('float64')
             mm, im = np.isfinite(m), np.isfinite(a)
             if hv and ups in ('cubic', 'cubic_spline'):
-                seam, nblk = seam_pixels(pair, src, ref, fusion.block_mem_for(hv, ph, pw, src.px, ref.px, proc_ref))
-                run.hist['whole-image model: 4x4 kernel, multi-block: seam pixels not compared'] += int(seam.sum())
-                run.hist['whole-image model: 4x4 kernel, multi-block: pixels compared'] += int((~seam).sum())
+                seam, nblk, _ = seam_pixels(pair, src, ref, fusion.block_mem_for(hv, ph, pw, src.px, ref.px, proc_ref))
+                run.hist['whole-image model: 4x4 kernel, multi-block: seam pixels (compared with the block model only)'] += int(seam.sum())
+                run.hist['whole-image model: 4x4 kernel, multi-block: pixels compared with the whole-image model'] += int((~seam).sum())
                 # validity never depends on the partition (it is the nearest parameter pixel's), values do at the seams
                 m = np.where(seam & mm, a, m)
+            if hv and grid == 'ref' and src.px != ref.px:
+                # every pixel - seams included - against what the block that writes it computes from what it read
+                # (`correctedByBlock` / `correctedWideByBlock`; block shape as the code chose it, overlap = overlap_for_kernel)
+                from homonim import utils as hu
+                _, nblk, (bsr, bsc) = seam_pixels(pair, src, ref, fusion.block_mem_for(hv, ph, pw, src.px, ref.px, proc_ref))
+                ov = hu.overlap_for_kernel(kern)
+                if nblk > 1:
+                    rep_b = common.model_batch(['fuseimgblk %d %d %d %d ' % (bsr, bsc, int(ov[0]), int(ov[1])) + line.split(' ', 1)[1]])
+                    if rep_b is not None and '?' not in rep_b[0] and not rep_b[0].startswith('bad'):
+                        mb = resamp.parse_model_grid(rep_b[0], src.h, src.w)
+                        run.hist[f'block model: {ups} multi-block runs compared at every pixel'] += 1
+                        run.lines_compared += 1
+                        mbm_, tolb = np.isfinite(mb), (2e-5 if model == 'gain' else 5e-3)
+                        if not np.array_equal(mbm_, im):
+                            d = np.argwhere(mbm_ != im)[0].tolist()
+                            run.disagree(case, ('fuseimgblk ' + line)[:200], f'valid={bool(mbm_[tuple(d)])} at {d}', f'valid={bool(im[tuple(d)])}',
+                                         what='block model: corrected validity')
+                            continue
+                        if mbm_.any():
+                            relb = np.abs(mb - a)[mbm_] / np.maximum(np.abs(mb[mbm_]), 1.0)
+                            if relb.max() > tolb:
+                                kk = np.argwhere((np.abs(mb - a) / np.maximum(np.abs(mb), 1.0) > tolb) & mbm_)[0].tolist()
+                                run.disagree(case, ('fuseimgblk ' + line)[:200], repr(float(mb[tuple(kk)])), repr(float(a[tuple(kk)])),
+                                             what=f'block model: corrected value at {kk} (rel {relb.max():.1e}, tol {tolb})')
+                                continue
+                    elif rep_b is not None:
+                        run.hist['block model: reply not usable'] += 1
             if not np.array_equal(mm, im):
                 d = np.argwhere(mm != im)[0].tolist()
                 run.disagree(case, line[:200], f'valid={bool(mm[tuple(d)])} at {d}', f'valid={bool(im[tuple(d)])}',
